@@ -272,6 +272,10 @@ pub fn velocity_ref(sub: u32, s_ew: u32, v_ew: u32, s_ns: u32, v_ns: u32, s_vr: 
         let gs = if supersonic { g * 4 } else { g };
         let theta = (ew as f64).atan2(ns as f64).to_degrees();
         let mut acc = Vec::new();
+        if ew == 0 && ns == 0 {
+            // zero speed: the direction of a null vector is not defined (atan2(+-0, +-0)); any track is accepted
+            acc.extend(0..360u32);
+        }
         for d in [-1e-9, 0.0, 1e-9] {
             let t = (((theta + d).floor() as i64 % 360) + 360) % 360;
             let t = t as u32;
